@@ -285,7 +285,28 @@ Section Persist.
   (* what a successful load does with the contents of the file *)
   Definition apply_snapshot (d : snapshot) (p : pool) : pool :=
     apply_unb (apply_deltas (fold_left apply_rec (sn_recs d) p) (sn_deltas d)) (sn_unb d).
+
+  (* ---- specification vocabulary (used by the theorems) ---- *)
+  Definition rec_id (r : mrec) : list N := txid (r_tx r).
+  (* the pool entry a saved record stands for *)
+  Definition entry_of (r : mrec) : entry := mk_entry (rec_id r) (r_time r) (r_delta r).
+  Definition unexpired (r : mrec) : bool := r_time r >? now - expiry.
+  (* the pool state normal submission sees for record r: its saved delta is already in mapDeltas *)
+  Definition with_delta (p : pool) (r : mrec) : pool :=
+    if negb (r_delta r =? 0) then prioritise p (rec_id r) (r_delta r) else p.
+  (* the saved records that are unexpired and that normal submission accepts when their turn comes *)
+  Fixpoint accepted_recs (p : pool) (l : list mrec) : list mrec :=
+    match l with
+    | [] => []
+    | r :: l' =>
+      let p1 := with_delta p r in
+      (if unexpired r && negb (in_pool (rec_id r) p1) && accept p1 (r_tx r) (r_time r) then [r] else [])
+      ++ accepted_recs (apply_rec p r) l'
+    end.
 End Persist.
+
+(* the options LoadMempool is called with at startup (node/mempool_persist_args, init.cpp): file times, deltas and unbroadcast set applied *)
+Definition startup_opts : load_opts := mk_opts false true true.
 
 Arguments mk_rec {T}.
 Arguments r_tx {T}.
